@@ -915,7 +915,10 @@ def run(res, rng, tier):
         if cls == 'nan':
             res.count('float/nan-excluded-from-law')
             continue
-        if x.get('back') != b:
+        if 9 in txt or 44 in txt or 10 in txt:
+            res.failures.append(dict(sig='float:text-not-clean:' + cls, what='the text %r of float32 0x%08x contains a TAB, comma or newline' % (txt, b),
+                                     case=dict(op='f32', bits=[b]), observed=x))
+        elif x.get('back') != b:
             res.failures.append(dict(sig='float:law:' + cls, what='ParseFloat(%r, 32) = %s, not the bits 0x%08x that were formatted' % (txt, x.get('back', x.get('perr')), b),
                                      case=dict(op='f32', bits=[b]), observed=x))
         elif not ok:
@@ -1163,15 +1166,15 @@ TRUSTED = [
     'Go int (64 bit) is modelled as unbounded Z with the int64 range check of strconv made explicit',
 ]
 ASSUME = [
-    'float32 text: strconv formatting/parsing enter as Section variables fmt_f32/parse_f32 with the law parse_f32 (fmt_f32 x) = Some x for non-NaN x; the law is validated on every run against strconv and exactly against IEEE 754 on all boundary classes (NaN excluded: its payload is not carried by the text)',
+    'float32 text: strconv formatting/parsing enter as variables fmt_f32/parse_f32 with the laws parse_f32 (fmt_f32 x) = Some x and "the text has no TAB or comma" for non-NaN x (premises of sam_roundtrip); both are validated on every run against strconv and exactly against IEEE 754 on all boundary classes (NaN excluded: its payload is not carried by the text)',
     'references of a record are references of the header (pointer equality = index equality); header names are pairwise distinct, non-empty, not "*" or "=" and free of TAB (invariant owned by C07)',
     'bam_sam_agree is stated over an abstract BAM codec with its round-trip law as hypothesis (the BAM codec is property C05); the harness checks the agreement on the real bam.Writer/bam.Reader',
 ]
 
 CLAIM = dict(
     text='Machine-checked proof (Coq 8.16.1) about a model of sam.Record.MarshalSAM/UnmarshalSAM, ParseAux, ParseCigar, Cigar.IsValid and sam.Reader.Read that follows the Go code '
-         '(tables and format strings regenerated from the source on every run): for every record expressible in SAM text, parse(format(r)) succeeds, re-formats to the same line and is '
-         'field-wise equal (decimal and hex flags); the line equals a formatter written from SAMv1 1.4/1.5; formatting is invariant under the BAM view equivalence; the reader returns '
+         '(tables and format strings regenerated from the source on every run): for every record expressible in SAM text (all fields, all eleven aux types), parse(format(r)) succeeds, re-formats to the same line and is '
+         'field-wise equal (decimal and hex flags; float text law as premise); the line equals a formatter written from SAMv1 1.4/1.5; formatting is invariant under the BAM view equivalence; the reader returns '
          'exactly one result per input line (LF/CRLF, unterminated last line, empty lines without panic). The model is run against the implementation on generated cases inside coqc.',
     note='Trusted: Coq kernel; the hand-written model incl. its fmt/strconv subset; Python glue. float32 text is a Section hypothesis validated against strconv and IEEE 754 on every run. '
          'The BAM codec is abstract (law as hypothesis); no-header reader mode is checked by the oracle only.',
